@@ -892,7 +892,7 @@ def bv_get(vm, m, callee, args):
     return Ref(Cell(b)) if 'unchecked' in callee else some(Ref(Cell(b)))
 
 
-@native(r'^<bitvec::ptr::BitRef<.*> as Deref>::deref$', 'BitRef derefs to the bit')
+@native(r'^<(bitvec::ptr::)?BitRef<.*> as Deref>::deref$', 'BitRef derefs to the bit')
 def bitref_deref(vm, m, callee, args):
     return args[0] if isinstance(dv(vm, args[0]), type(BoolVal(True))) or True else args[0]
 
